@@ -2,6 +2,7 @@ package scen
 
 import (
 	"fmt"
+	"runtime"
 	"strings"
 
 	"verifsim/engine"
@@ -81,6 +82,19 @@ func (r Readers) Execute(pl engine.Plan, c *engine.RunCtx) *engine.Failure {
 				}
 				if b.fault != 0 {
 					return faultFail(step, t, i, &b)
+				}
+				if strings.HasPrefix(op.Fn, "sigbits.Huge") && w.huge != nil {
+					// the number of processors is not an argument either
+					old := runtime.GOMAXPROCS(1)
+					c1 := execOp(w, op, false, pz[0])
+					runtime.GOMAXPROCS(4)
+					c4 := execOp(w, op, false, pz[0])
+					runtime.GOMAXPROCS(old)
+					c.LibCalls += 2
+					st.Inc("probe.C19.huge_input_under_two_GOMAXPROCS")
+					if c1.hash != c4.hash || c1.hash != a.hash {
+						return engine.Failf("C19.ambient", step, "%s on %d keys: the result depends on GOMAXPROCS (1 vs 4 vs %d processors give different results): it does not depend only on its arguments", opName(t, i), len(w.huge), old)
+					}
 				}
 				if a.hash != b.hash {
 					return engine.Failf("C19.ambient", step, "%s: the result depends on something other than its arguments: with stack poison %#x (direct call) it gave %s, with poison %#x (call through a function value) it gave %s", opName(t, i), pz[0], a.describe(), pz[1], b.describe())
